@@ -1,9 +1,14 @@
 import Qryn.Proofs.Ingest
 import Qryn.Proofs.Utf8
+import Qryn.Proofs.Wire
+import Qryn.Gen.Decoders
 /-! # C03 — log and metric ingest decodes every entry to exactly one faithful row
 
-Model: `Qryn.Ingest.Builder` (`onEntries`, flush/reset, cache, sanitiser, TTL label) and `Qryn.Ingest.Decode`
-(the seven `Decode` methods as callback sequences over the decoded document). In every theorem
+Model: `Qryn.Ingest.Builder` (`onEntries`, flush/reset, cache, sanitiser, TTL label), `Qryn.Ingest.Decode`
+(the seven `Decode` methods as callback sequences over the decoded document) and — second half of this file —
+`Qryn.Ingest.Wire` / `Qryn.Ingest.WireDecode`: the decoders' own hand-written logic over the INTERMEDIATE VALUES the
+third-party codecs hand to it (`jx` JSON values with members in document order and duplicates, protobuf message
+structs, telegraf `Metric`s, `text/scanner` tokens). In every theorem
 
 * `env : Env` is arbitrary: the fingerprint function `env.fp` (property C04) and the length of the label document
   are abstract; the byte-threshold test `env.flush` (any predicate on the byte count), the per-row size constants and
@@ -234,5 +239,250 @@ example : faultOf (onEntries exEnv {} ⟨[], [1], [[]], [0], [2]⟩) = none := b
 /-- a Loki entry with a line and a number gets type 0, one with a line only type 1 -/
 example : (LokiEntry.entry ⟨5, some [120], some 0⟩).tp = 0 ∧ (LokiEntry.entry ⟨5, some [120], none⟩).tp = 1 := by
   decide
+
+/-! ## The decoders' own logic, from the third-party library's output on
+
+`Json`, `PbStream`, `PbResourceLogs`, `Metric`, `Tok` are what jx / protobuf / telegraf / text/scanner hand to qryn's code
+(`Ingest/Wire.lean`); `scan` (label text → tokens, with `strconv.Unquote` applied to string tokens) and `tagsOf` (the
+matches of the Datadog tag pattern) are ARBITRARY functions: the theorems hold whatever those libraries return.
+`…Decode` is the decoder model (the Go control flow: callbacks in document order over mutable fields), `…Spec` the
+independent reading of the same value; `none` on either side = the request is answered with an error. -/
+
+open Qryn.Ingest.Wire
+
+/-- one call per stream as `Call.ofEntries`: the parser succeeds and emits exactly the streams' entries -/
+theorem streams_to_rows (env : Env) (ss : List (Labels × List Entry)) (h : ∀ s ∈ ss, ∀ e ∈ s.2, e.tp ≤ 2) :
+    ∃ chunks, parse env (ss.map (fun s => Call.ofEntries s.1 s.2)) = .ok chunks ∧
+      chunks.flatMap Chunk.rows = ss.flatMap (fun s => s.2.map (want env s.1)) := by
+  obtain ⟨chunks, e, _, r⟩ := parse_spec env _ (ofEntries_calls_WF ss h)
+  exact ⟨chunks, e, by rw [r, ofEntries_calls_rows]; rfl⟩
+
+/-- **Loki JSON push.** For EVERY JSON value — any member order, any repetition of `streams`, `stream`, `labels`,
+    `values`, `entries`, `ts`, `timestamp`, `line`, `value`, any unknown members — and every label-text tokeniser:
+    the decoder's walk returns an error exactly when the specification reading rejects the value, and otherwise makes
+    exactly one `onEntries` call per stream object, in document order, carrying
+
+    * as labels ALL label sources of THAT object (`stream` members and `labels` texts) concatenated in document order
+      and sanitised — the policy for repeated `stream`/`labels` is "append", not "first wins" or "last wins";
+    * as entries ALL elements of ALL `values` / `entries` members of THAT object in document order — also those that stand
+      BEFORE the labels in the document: nothing is attributed to the previous or the next stream;
+    * per `values` element: `[ts, line?, number?]` by position (timestamp a STRING holding a decimal int64; a third
+      element that is not a number — Loki's structured metadata — and everything after it ignored; `[]` = an entry at
+      time 0 without content); per `entries` element: the LAST `ts`/`timestamp` (decimal integer string, or RFC 3339 as
+      Go's `time.Parse` reads it — `goParseRFC3339`), the LAST `line`, the LAST `value`;
+    * type 1 for a line only, 2 for a number only, 0 for both or neither. -/
+theorem decode_lokijson_faithful (scan : Bytes → List Tok) (j : Json) :
+    lokiJsonDecode scan j = (lokiJsonSpec scan j).map decodeLoki :=
+  lokiJsonDecode_spec scan j
+
+/-- intermediate value → rows, Loki JSON: when the value is a well-formed push (`lokiJsonSpec` reads it as `doc`),
+    `Decode` returns no error, the parser does not fault, and the rows of all chunks are one per entry of `doc` with the
+    entry's own timestamp/line/value/type under its own stream's fingerprint — for every environment, i.e. however
+    the rows are cut into chunks. -/
+theorem body_to_rows_faithful_lokijson (env : Env) (scan : Bytes → List Tok) (j : Json) (doc : LokiDoc)
+    (h : lokiJsonSpec scan j = some doc) :
+    ∃ calls chunks, lokiJsonDecode scan j = some calls ∧ parse env calls = .ok chunks ∧
+      chunks.flatMap Chunk.rows =
+        doc.flatMap (fun s => s.entries.map (fun e => want env (sanitizeLabels s.labels) e.entry)) := by
+  obtain ⟨chunks, e, r⟩ := samples_faithful_loki env (fun _ => false) 0 doc
+  exact ⟨decodeLoki doc, chunks, by rw [decode_lokijson_faithful, h]; rfl, e, r⟩
+
+/-- an ill-formed value gives an error and no call at all (the model has no partial result to leak) -/
+theorem lokijson_rejects_iff (scan : Bytes → List Tok) (j : Json) :
+    lokiJsonDecode scan j = none ↔ lokiJsonSpec scan j = none := by
+  rw [decode_lokijson_faithful]; cases lokiJsonSpec scan j <;> simp
+
+/-- **member order of a stream object does not matter** beyond the order of the label sources among themselves and of
+    the entry sources among themselves: two objects with the same sub-list of label sources and the same sub-list of
+    entry sources (whatever else they contain, wherever `values` stands relative to `stream`) are the same stream —
+    and, with `decode_lokijson_faithful`, the decoder treats them alike. -/
+theorem lokijson_member_order (scan : Bytes → List Tok) (m₁ m₂ : List (Bytes × Json))
+    (hl : m₁.filter labelKey = m₂.filter labelKey) (he : m₁.filter entryKey = m₂.filter entryKey) :
+    specStream scan (.obj m₁) = specStream scan (.obj m₂) := by
+  rw [specStream_split, specStream_split, hl, he]
+
+/-- **Loki protobuf push**: one call per stream, labels = the pairs of its label text, timestamp `sec·10⁹ + nanos`;
+    an unparsable label text is an error. -/
+theorem decode_lokiproto_faithful (scan : Bytes → List Tok) (d : List PbStream) :
+    lokiProtoDecode scan d = (lokiProtoSpec scan d).map decodeProto :=
+  lokiProtoDecode_spec scan d
+
+theorem body_to_rows_faithful_lokiproto (env : Env) (scan : Bytes → List Tok) (d : List PbStream) (doc : LokiProto)
+    (h : lokiProtoSpec scan d = some doc) :
+    ∃ calls chunks, lokiProtoDecode scan d = some calls ∧ parse env calls = .ok chunks ∧
+      chunks.flatMap Chunk.rows =
+        doc.flatMap (fun s => s.entries.map (fun e => want env (sanitizeLabels s.labels) e.entry)) := by
+  obtain ⟨chunks, e, r⟩ := samples_faithful_lokiProto env (fun _ => false) 0 doc
+  exact ⟨decodeProto doc, chunks, by rw [decode_lokiproto_faithful, h]; rfl, e, r⟩
+
+/-- **Remote write**: the intermediate value (`prompb.WriteRequest`: label name/value pairs, samples) IS the decoded
+    document; the decoder's calls — whatever the point limit cuts — are well formed and carry each series' samples once,
+    under that series' labels. -/
+theorem decode_prom_faithful (env : Env) (hit : Nat → Bool) (d : PromWrite) :
+    (∀ c ∈ decodeProm hit d, c.WF) ∧
+    (decodeProm hit d).flatMap (callRows env) = d.flatMap (fun s => s.sub.map (want env s.ident)) := by
+  obtain ⟨w, r⟩ := Body.calls_spec env hit 0 (.prom d)
+  refine ⟨w, ?_⟩
+  simp only [Body.calls, Body.streams] at r
+  rw [r]
+  simp only [streamsRows, List.flatMap_map, streamRows]
+  rfl
+
+theorem body_to_rows_faithful_prom (env : Env) (hit : Nat → Bool) (d : PromWrite) :
+    ∃ chunks, parse env (decodeProm hit d) = .ok chunks ∧
+      chunks.flatMap Chunk.rows = d.flatMap (fun s => s.samples.map (fun e => want env (sanitizeLabels s.labels) e.entry)) :=
+  samples_faithful_prom env hit 0 d
+
+/-- **Influx line protocol**, from telegraf's `Metric`s: a metric with a field `message` is ONE log entry (line: the
+    string itself when it is the only field, else logfmt `message=… k=v …`); any other metric is one metric entry per
+    int / uint / float field (`float64(v)`, ties to even) under `measurement + tags + __name__=<sanitised field key>`;
+    boolean and string fields of such a metric carry no sample. A logfmt error rejects the request. -/
+theorem decode_influx_faithful (ms : List Metric) : influxDecode ms = (influxSpec ms).map decodeInflux :=
+  influxDecode_spec ms
+
+theorem body_to_rows_faithful_influx (env : Env) (ms : List Metric) (doc : InfluxPoints) (h : influxSpec ms = some doc) :
+    ∃ calls chunks, influxDecode ms = some calls ∧ parse env calls = .ok chunks ∧
+      chunks.flatMap Chunk.rows = doc.flatMap (fun p => p.streams.flatMap (fun s => s.2.map (want env s.1))) := by
+  obtain ⟨chunks, e, r⟩ := samples_faithful_influx env (fun _ => false) 0 doc
+  exact ⟨decodeInflux doc, chunks, by rw [decode_influx_faithful, h]; rfl, e, r⟩
+
+/-- **Datadog logs**: the body must be an array; every element object is one log entry whose tags are the matches of
+    ALL its `ddtags` members, whose other fields are the LAST member of each name, with the fields of THIS element only. -/
+theorem decode_ddlogs_faithful (tagsOf : Bytes → Labels) (now : Int) (j : Json) :
+    ddLogsDecode tagsOf now j = (ddLogsSpec tagsOf j).map (decodeDDLogs now) :=
+  ddLogsDecode_spec tagsOf now j
+
+theorem body_to_rows_faithful_ddlogs (env : Env) (tagsOf : Bytes → Labels) (now : Int) (j : Json) (doc : DatadogLogs)
+    (h : ddLogsSpec tagsOf j = some doc) :
+    ∃ calls chunks, ddLogsDecode tagsOf now j = some calls ∧ parse env calls = .ok chunks ∧
+      chunks.flatMap Chunk.rows =
+        doc.map (fun e => want env e.ident ⟨ddTs now e.tsMs, e.message, 0, Gen.sampleTypeLog⟩) := by
+  obtain ⟨chunks, e, r⟩ := samples_faithful_ddLogs env (fun _ => false) now doc
+  exact ⟨decodeDDLogs now doc, chunks, by rw [decode_ddlogs_faithful, h]; rfl, e, r⟩
+
+/-- **Datadog series** (after the fix of the point defaults): every element of every `series` array is one stream whose
+    labels are `__name__` of every `metric` member and `resource<i>_<key>` of every `resources` member in document order,
+    whose entries are the points of every `points` member; a point is its LAST `timestamp` (s → ns; none: the wall clock)
+    and its LAST `value` (none: 0) — never the previous point's. -/
+theorem decode_ddseries_faithful (now : Int) (j : Json) :
+    ddSeriesDecode now j = (ddSeriesSpec now j).map (fun ss => ss.map (fun s => Call.ofEntries s.1 s.2)) :=
+  ddSeriesDecode_spec now j
+
+theorem body_to_rows_faithful_ddseries (env : Env) (now : Int) (j : Json) (ss : List (Labels × List Entry))
+    (h : ddSeriesSpec now j = some ss) :
+    ∃ calls chunks, ddSeriesDecode now j = some calls ∧ parse env calls = .ok chunks ∧
+      chunks.flatMap Chunk.rows = ss.flatMap (fun s => s.2.map (want env s.1)) := by
+  obtain ⟨chunks, e, r⟩ := streams_to_rows env ss (ddSeriesSpec_tp now j ss h)
+  exact ⟨_, chunks, by rw [decode_ddseries_faithful, h]; rfl, e, r⟩
+
+/-- **OTLP logs** (after the fix of the body): one call per log record, in message order; its line is `SanitizeValue`
+    of the body whatever the body's kind; its labels are `otlpIdent` of the rendered attributes … -/
+theorem decode_otlp_faithful (d : List PbResourceLogs) :
+    otlpDecode d =
+      (otlpOfWire d).flatMap (fun res => res.scopes.flatMap (fun sc => sc.records.map (fun r =>
+        Call.ofEntries (otlpIdent res.attrs sc.attrs r) [r.entry]))) := by
+  simp [otlpDecode, decodeOtlp, otlpStreams, List.map_flatMap, Function.comp_def]
+
+/-- … and `otlpIdent` is the flattening the protocol means: a label name (= sanitised attribute key) maps to the
+    severity text for `level` when there is one, else to the LAST record attribute with that key, else the last scope
+    attribute, else the last resource attribute; no name twice. -/
+theorem otlp_label_of_record (res sc : Labels) (r : OtlpRecord) (k : Bytes) :
+    lookupLabel (otlpIdent res sc r) k = otlpSpecLabel res sc r k ∧ ((otlpIdent res sc r).map (·.1)).Nodup :=
+  otlpIdent_lookup res sc r k
+
+theorem body_to_rows_faithful_otlp (env : Env) (d : List PbResourceLogs) :
+    ∃ chunks, parse env (otlpDecode d) = .ok chunks ∧
+      chunks.flatMap Chunk.rows =
+        (otlpOfWire d).flatMap (fun res => res.scopes.flatMap (fun sc => sc.records.map (fun r =>
+          want env (otlpIdent res.attrs sc.attrs r) r.entry))) :=
+  samples_faithful_otlp env (fun _ => false) 0 (otlpOfWire d)
+
+
+/-! ### the decoders' shape in today's source (`Gen.Decoders`, regenerated on every run) -/
+
+/-- What the decoder models mirror is what the source has today: the cases of every `switch key` (in order), the
+    positions `decodeStreamValue` distinguishes, the byte set and layout of `parseTime`, the fixed Datadog labels, that
+    the defaults of a Datadog point are declared INSIDE the per-point callback (the fix), the Influx field kinds that
+    become samples, the label names the Influx / OTLP decoders write, that the OTLP line is `SanitizeValue(logRecord.Body)`
+    (the fix), the kinds `SanitizeValue` distinguishes. A new case or a renamed key fails here. -/
+theorem decoder_shape_source :
+    Gen.lokiTopKeys = [k_streams] ∧ Gen.lokiStreamKeys = [k_stream, k_labels, k_values, k_entries] ∧
+    Gen.lokiEntryKeys = [k_ts, k_timestamp, k_line, k_value] ∧ Gen.lokiValuePositions = [[48], [49], [50]] ∧
+    Gen.parseTimeChars = [[58, 45, 84, 90]] ∧ Gen.parseTimeLayout = [[116, 105, 109, 101, 46, 82, 70, 67, 51, 51, 51, 57]] ∧
+    Gen.ddLogKeys = [k_ddsource, k_ddtags, k_hostname, k_message, k_service, k_timestamp, k_source_type] ∧
+    Gen.ddLogFixed = [k_ddsource, [100, 46, 83, 111, 117, 114, 99, 101], k_service, [100, 46, 83, 101, 114, 118, 105, 99, 101], k_hostname, [100, 46, 72, 111, 115, 116, 110, 97, 109, 101], k_source_type, [100, 46, 83, 111, 117, 114, 99, 101, 84, 121, 112, 101], [116, 121, 112, 101], [61, 100, 97, 116, 97, 100, 111, 103]] ∧
+    Gen.ddSeriesTopKeys = [k_series] ∧ Gen.ddSeriesItemKeys = [k_metric, k_resources, k_points] ∧
+    Gen.ddSeriesPointKeys = [k_timestamp, k_value] ∧ Gen.ddSeriesPointDefaultsDepth = 1 ∧
+    Gen.influxNumericKinds = [[105, 110, 116, 54, 52], [102, 108, 111, 97, 116, 54, 52], [117, 105, 110, 116, 54, 52]] ∧
+    Gen.influxLiterals = [[10], [112, 114, 101, 99, 105, 115, 105, 111, 110], measurementName, k_message, nameLabel, []] ∧
+    Gen.influxMessageLiterals = [k_message, []] ∧ Gen.otlpLiterals = [[], levelLabel] ∧
+    Gen.otlpMessageExpr = [[83, 97, 110, 105, 116, 105, 122, 101, 86, 97, 108, 117, 101, 40, 108, 111, 103, 82, 101, 99, 111, 114, 100, 46, 66, 111, 100, 121, 41]] ∧
+    Gen.otlpValueKinds = [[111, 116, 108, 112, 67, 111, 109, 109, 111, 110, 46, 65, 110, 121, 86, 97, 108, 117, 101, 95, 83, 116, 114, 105, 110, 103, 86, 97, 108, 117, 101],
+      [111, 116, 108, 112, 67, 111, 109, 109, 111, 110, 46, 65, 110, 121, 86, 97, 108, 117, 101, 95, 66, 111, 111, 108, 86, 97, 108, 117, 101],
+      [111, 116, 108, 112, 67, 111, 109, 109, 111, 110, 46, 65, 110, 121, 86, 97, 108, 117, 101, 95, 73, 110, 116, 86, 97, 108, 117, 101],
+      [111, 116, 108, 112, 67, 111, 109, 109, 111, 110, 46, 65, 110, 121, 86, 97, 108, 117, 101, 95, 68, 111, 117, 98, 108, 101, 86, 97, 108, 117, 101],
+      [111, 116, 108, 112, 67, 111, 109, 109, 111, 110, 46, 65, 110, 121, 86, 97, 108, 117, 101, 95, 66, 121, 116, 101, 115, 86, 97, 108, 117, 101],
+      [111, 116, 108, 112, 67, 111, 109, 109, 111, 110, 46, 65, 110, 121, 86, 97, 108, 117, 101, 95, 65, 114, 114, 97, 121, 86, 97, 108, 117, 101],
+      [111, 116, 108, 112, 67, 111, 109, 109, 111, 110, 46, 65, 110, 121, 86, 97, 108, 117, 101, 95, 75, 118, 108, 105, 115, 116, 86, 97, 108, 117, 101]] := by
+  decide +kernel
+
+/-! ### non-vacuity of the decoder theorems -/
+
+def ks (s : String) : Bytes := s.toUTF8.toList
+
+/-- `{"streams":[{"values":[["1","a"]],"stream":{"x":"y"}},{"stream":{"p":"q"},"values":[["2","b",1e2,"more"]],"stream":{"r":"s"}}]}`:
+    values before stream, a repeated `stream`: two streams, the entries stay with their own object -/
+def exJson : Json :=
+  .obj [(k_streams, .arr [
+    .obj [(k_values, .arr [.arr [.str [49], .str [97]]]), (k_stream, .obj [([120], .str [121])])],
+    .obj [(k_stream, .obj [([112], .str [113])]),
+          (k_values, .arr [.arr [.str [50], .str [98], .num [49, 101, 50] (some 4636737291354636288) none, .str [109]]]),
+          (k_stream, .obj [([114], .str [115])])]])]
+
+example : (lokiJsonSpec (fun _ => []) exJson).map (fun d => d.map (fun s => (s.labels, s.entries.map (·.ts)))) =
+    some [([([120], [121])], [1]), ([([112], [113]), ([114], [115])], [2])] := by decide +kernel
+example : (lokiJsonSpec (fun _ => []) exJson).map (fun d => d.map (fun s => s.entries.map (fun e => (e.line, e.val)))) =
+    some [[(some [97], none)], [(some [98], some 4636737291354636288)]] := by decide +kernel
+
+example : (lokiJsonDecode (fun _ => []) exJson).map (fun cs => cs.map (fun c => (c.labels, c.ts))) =
+    some [([([120], [121])], [1]), ([([112], [113]), ([114], [115])], [2])] := by decide +kernel
+example : (lokiJsonDecode (fun _ => []) exJson).map (fun cs => cs.map (fun c => (c.msg, c.tp))) =
+    some [([[97]], [1]), ([[98]], [0])] := by decide +kernel
+
+/-- a timestamp that is a JSON number is rejected (both layouts want a string) -/
+example : lokiJsonDecode (fun _ => [])
+    (.obj [(k_streams, .arr [.obj [(k_values, .arr [.arr [.num [49] (some 0) (some 1), .str [97]]])]])]) = none := by
+  decide +kernel
+
+/-- `time.Parse(time.RFC3339, ·)` as modelled: fraction truncated to nine digits, offsets, a one-digit hour, the comma,
+    `+24:60`; rejected: hour 24, 30 February, a missing zone; a negative integer goes to the RFC 3339 branch and fails -/
+example : goParseRFC3339 [50,48,50,49,45,49,50,45,50,54,84,49,54,58,48,48,58,48,54,46,49,50,51,52,53,54,55,56,57,57,90]
+    = some 1640534406123456789 := by decide +kernel          -- 2021-12-26T16:00:06.1234567899Z
+example : goParseRFC3339 [50,48,50,49,45,49,50,45,50,54,84,51,58,48,48,58,48,54,44,53,43,50,52,58,54,48]
+    = some 1640397606500000000 := by decide +kernel          -- 2021-12-26T3:00:06,5+24:60
+example : goParseRFC3339 [50,48,50,51,45,48,50,45,51,48,84,48,48,58,48,48,58,48,48,90] = none := by decide +kernel  -- 2023-02-30T00:00:00Z
+example : goParseRFC3339 [50,48,50,51,45,48,50,45,50,56,84,50,52,58,48,48,58,48,48,90] = none := by decide +kernel  -- 2023-02-28T24:00:00Z
+example : parseTime [45, 53] = none ∧ parseInt64 [45, 53] = some (-5) := by decide +kernel
+
+/-- Datadog series `{"series":[{"metric":"m","points":[{"timestamp":1,"value":5},{"value":7},{"timestamp":3}]}]}`:
+    the second point takes the wall clock (here 99), the third the value 0 -/
+example : (ddSeriesDecode 99
+    (.obj [(k_series, .arr [.obj [(k_metric, .str [109]),
+      (k_points, .arr [.obj [(k_timestamp, .num [49] (some 1) (some 1)), (k_value, .num [53] (some 5) (some 5))],
+                       .obj [(k_value, .num [55] (some 7) (some 7))],
+                       .obj [(k_timestamp, .num [51] (some 3) (some 3))]])]])])).map (fun cs => cs.map (fun c => (c.ts, c.val)))
+    = some [([1000000000, 99, 3000000000], [5, 7, 0])] := by decide +kernel
+
+/-- `float64(int64)`: 2⁵³+1 is a tie and goes to the even neighbour 2⁵³; 2⁶⁴−1 rounds up to 2⁶⁴ -/
+example : natToF64 9007199254740993 = 0x4340000000000000 ∧ natToF64 18446744073709551615 = 0x43F0000000000000 ∧
+    intToF64 (-5) = 0xC014000000000000 := by decide +kernel
+
+/-- `SanitizeValue` of a key-value list: keys sanitised (collisions: the last wins), sorted, JSON with HTML escaping -/
+example : sanitizeValue (.kvl [([98, 46, 99], .str [120, 60, 121]), ([97], .int 1), ([98, 95, 99], .str [122])]) =
+    [123, 34, 97, 34, 58, 34, 49, 34, 44, 34, 98, 95, 99, 34, 58, 34, 122, 34, 125] := by decide +kernel   -- {"a":"1","b_c":"z"}
+
+/-- an Influx metric whose only field is the integer `message` (after the fix: a log line, no fault) -/
+example : (influxDecode [⟨[109], [], [⟨k_message, .int 5, some [109, 101, 115, 115, 97, 103, 101, 61, 53]⟩], 7⟩]).map
+    (fun cs => cs.map (fun c => (c.msg, c.tp))) = some [([[109, 101, 115, 115, 97, 103, 101, 61, 53]], [1])] := by decide +kernel
 
 end Qryn.C03
